@@ -275,7 +275,13 @@ def scenario(rng, ctxs, kinds=None, private_keys=False):
         return newthread_pair(child, ctxs['pid'] + rng.randrange(0, 3),
                               rng.choice(domain.TEXTS)[:32], rng.choice((NONE, ALL)))
     if kind == 'exec':
-        return exec_pair(ctxs['pid'] + rng.randrange(0, 3), rng.choice(domain.TEXTS)[:32], rng.choice((NONE, ALL)))
+        pair = exec_pair(ctxs['pid'] + rng.choice((0, 0, 1, 2)), rng.choice(domain.TEXTS)[:32], rng.choice((NONE, ALL)))
+        if rng.random() < 0.5:
+            # the usual shape: the pair sits inside the window of the execve() / posix_spawn() call that caused it
+            name = rng.choice(('BSC_execve', 'BSC_posix_spawn'))
+            nested = (lookup(rng.getrandbits(40), rng.choice(PATHS)) if rng.random() < 0.5 else []) + pair
+            return gen_syscall(rng, name, nested)
+        return pair
     if kind == 'threadname':
         return thread_name(rng.choice(domain.TEXTS) * rng.choice((1, 1, 3)), prev=rng.random() < 0.3)
     if kind == 'gstring':
